@@ -136,10 +136,12 @@ M2('c06-wsgi-accept-factory-default-missing-only', 'C06', 'R2', [
     {'file': 'falcon/request_helpers.py', 'old': "        except KeyError:\n            return None\n", 'new': "        except KeyError:\n            return default\n"},
     {'file': 'falcon/request.py', 'old': _WSGI_ACCEPT, 'new': ""},
     {'file': 'falcon/request.py', 'old': "    auth: Optional[str] = helpers._header_property('HTTP_AUTHORIZATION')\n",
-     'new': "    accept: str = helpers._header_property('HTTP_ACCEPT', default='*/*')\n    auth: Optional[str] = helpers._header_property('HTTP_AUTHORIZATION')\n"}])
+     'new': "    accept: str = helpers._header_property('HTTP_ACCEPT', default='*/*')\n    auth: Optional[str] = helpers._header_property('HTTP_AUTHORIZATION')\n"}],
+   also=('C04',))  # a blank Accept now answers None: also C04 R8 (what the error serializer negotiates with)
 # hand-written on both stacks: one sibling maps a blank Accept to None
 M('c06-asgi-accept-blank-gives-none', 'C06', 'R2', 'falcon/asgi/request.py',
-  "return self._asgi_headers[b'accept'].decode('latin1') or '*/*'", "return self._asgi_headers[b'accept'].decode('latin1') or None")
+  "return self._asgi_headers[b'accept'].decode('latin1') or '*/*'", "return self._asgi_headers[b'accept'].decode('latin1') or None",
+  also=('C04',))  # also C04 R8 (req.accept is never None)
 # factory-built on both stacks: one factory stops normalising a blank header to None
 M('c06-asgi-header-property-keeps-blank', 'C06', 'R2', 'falcon/asgi/_request_helpers.py',
   "return self._asgi_headers[header_bytes].decode('latin1') or None", "return self._asgi_headers[header_bytes].decode('latin1')")
@@ -214,3 +216,39 @@ M2('c06-asgi-params-class-default', 'C06', 'R8', [
 
 M('c06-create-scope-unquote-plus-default', 'C06', 'R9', 'falcon/testing/helpers.py',
   "    path = uri.decode(path, unquote_plus=False)", "    path = uri.decode(path)", count=2, occurrence=None)
+
+# --------------------------------------------------------------------- R13
+# constructor pipelines raw input -> self.path / self.query_string: a (guard, transformation) pair on one stack only
+_ASGI_RAW_PATH = "        path = scope['path'] or '/'\n"
+# s5-c06-1: "some servers include root_path in path" - ASGI alone drops a leading root_path
+M('c06-asgi-path-strips-root-path', 'C06', 'R13', 'falcon/asgi/request.py', _ASGI_RAW_PATH,
+  _ASGI_RAW_PATH + """
+        root_path = scope.get('root_path')
+        if root_path and path.startswith(root_path + '/'):
+            path = path[len(root_path) :]
+""")
+# the mirror image: WSGI alone drops a leading SCRIPT_NAME
+M('c06-wsgi-path-strips-script-name', 'C06', 'R13', 'falcon/request.py',
+  "            path = path.encode('iso-8859-1').decode('utf-8', 'replace')\n",
+  """            path = path.encode('iso-8859-1').decode('utf-8', 'replace')
+
+        script_name = env.get('SCRIPT_NAME', '')
+        if script_name and path.startswith(script_name + '/'):
+            path = path[len(script_name) :]
+""")
+# an unconditional one-sided normalisation
+M('c06-asgi-path-collapses-double-slashes', 'C06', 'R13', 'falcon/asgi/request.py', _ASGI_RAW_PATH,
+  "        path = (scope['path'] or '/').replace('//', '/')\n")
+# the same transformation under a guard that differs by an atom which does not mention the path
+M('c06-asgi-strip-slash-not-for-websocket', 'C06', 'R13', 'falcon/asgi/request.py',
+  """            self.options.strip_url_path_trailing_slash
+            and len(path) != 1
+            and path.endswith('/')
+""", """            self.options.strip_url_path_trailing_slash
+            and not self.is_websocket
+            and len(path) != 1
+            and path.endswith('/')
+""")
+# the sibling value derived from the other raw input
+M('c06-asgi-query-string-drops-question-mark', 'C06', 'R13', 'falcon/asgi/request.py',
+  "        query_string = scope['query_string'].decode()\n", "        query_string = scope['query_string'].decode().lstrip('?')\n")
